@@ -505,3 +505,93 @@ def distribution(cases, results):
         key = c['k'] + (':' + c['cfg']['t'] if 'cfg' in c else '')
         d[key] = d.get(key, 0) + 1
     return d
+
+
+# ================================================= ADDITION (long) ====================================================
+# Streams LONGER THAN ONE SECOND: the running offset of the continuous carriers passes int(fs) (and, at non-integer rates,
+# a whole number of periods is not a whole number of samples).  A history of chunks must still equal one request for the
+# total.  Oracle only - the symbolic model covers every offset (C01_chunk_invariant has no bound), but printing a recipe
+# per sample for 2e5 samples is pointless; the comparison is made on the implementation alone, bit-exactly.
+_cases0, _impl0, _expr0, _agree0, _nontrivial0, _oracle0 = cases, impl, expr, agree, nontrivial, oracle
+_distribution0 = distribution if 'distribution' in globals() else None
+
+RULE += (' (long) continuous carriers (tone, SAM tone with integer and non-integer frequencies, square wave, seeded noises, '
+         'SAM / cos2 envelopes over them) drawn for more than one second in 2-6 chunks whose boundaries straddle every '
+         'multiple of int(fs): equal, bit for bit, to one request for the total.')
+
+
+def _long_cfgs(fs, rng):
+    yield {'t': 'tone', 'f': rng.choice([37.5, 1000.0, fs / 7.0]), 'level': 1.0, 'phase': 0.3}
+    yield {'t': 'samtone', 'fc': rng.choice([1000.0, 1234.5, fs / 6.0]), 'fm': rng.choice([37.5, 40.0, 12.25]), 'level': 1.0}
+    yield {'t': 'samtone', 'fc': 2000.0, 'fm': 37.5, 'level': 1.0, 'phase': 0.4, 'phase_lb': 0.2, 'phase_ub': 0.1}
+    yield {'t': 'square', 'level': 1.0, 'freq': rng.choice([37.5, 10.0, 3.3]), 'duty': 0.3}
+    yield {'t': 'bbnoise', 'level': 1.0, 'seed': rng.randint(0, 9)}
+
+
+def _long_sizes(fs, rng):
+    n1 = int(fs)
+    k = rng.choice([1, 1, 2])
+    cuts = sorted({max(1, k * n1 + d) for d in rng.sample(range(-3, 4), 2)} | {rng.randint(1, n1 - 1)})
+    total = k * n1 + rng.randint(50, 400)
+    sizes, pos = [], 0
+    for c in cuts:
+        if pos < c < total:
+            sizes.append(c - pos)
+            pos = c
+    sizes.append(total - pos)
+    return sizes
+
+
+def _long_case(case):
+    fs = case['fs']
+    f = sc.mk(case['cfg'], fs)
+    parts = [np.asarray(f.next(n), dtype=float) for n in case['sizes']]
+    got = np.concatenate(parts)
+    g = sc.mk(case['cfg'], fs)
+    want = np.asarray(g.next(int(sum(case['sizes']))), dtype=float)
+    if got.shape != want.shape:
+        return {'fail': f'{case["cfg"]} at {fs} Hz, chunks {case["sizes"]}: {got.shape} samples instead of {want.shape}'}
+    bad = np.flatnonzero(got != want)
+    if len(bad):
+        i = int(bad[0])
+        return {'fail': f'{case["cfg"]} at {fs} Hz, chunks {case["sizes"]}: first difference at sample {i} ({i / fs:.6f} s): '
+                        f'{got[i]!r} in the history, {want[i]!r} in one request; {len(bad)} samples differ, '
+                        f'largest difference {float(np.max(np.abs(got - want))):.3g}'}
+    return {'fail': None}
+
+
+def cases(tier, rng):
+    yield from _cases0(tier, rng)
+    for fs in ([25000.0, 195312.5] if tier == 'quick' else [25000.0, 195312.5, 44100.0, 97656.25, 100000.0]):
+        for _ in range(2 if tier == 'quick' else 8):
+            for cfg in _long_cfgs(fs, rng):
+                yield {'k': 'long', 'fs': fs, 'cfg': cfg, 'sizes': _long_sizes(fs, rng)}
+
+
+def impl(case):
+    return _long_case(case) if case['k'] == 'long' else _impl0(case)
+
+
+def expr(case, res):
+    return '([1] : list Z)' if case['k'] == 'long' else _expr0(case, res)
+
+
+def agree(case, res, mo):
+    return None if case['k'] == 'long' else _agree0(case, res, mo)
+
+
+def nontrivial(case, res):
+    return True if case['k'] == 'long' else _nontrivial0(case, res)
+
+
+def oracle(case, res):
+    return res.get('fail') if case['k'] == 'long' else _oracle0(case, res)
+
+
+if _distribution0 is not None:
+    def distribution(cases_, results):
+        keep = [i for i, c in enumerate(cases_) if c['k'] != 'long']
+        d = _distribution0([cases_[i] for i in keep], [results[i] for i in keep])
+        d['long (> 1 s) histories'] = len(cases_) - len(keep)
+        return d
+# ================================================= end of the long addition ============================================
